@@ -128,7 +128,7 @@ def flexvec(t, l):
 
 class Def:
     def __init__(self, name, kind, sized, fields=None, variants=None, tag=None, default=False, portable=False,
-                 vis="pub", style="named", discrs=None):
+                 vis="pub", style="named", discrs=None, vattrs=None):
         self.name = name
         self.kind = kind  # struct | enum
         self.sized = sized
@@ -140,6 +140,7 @@ class Def:
         self.vis = vis
         self.style = style
         self.discrs = discrs
+        self.vattrs = vattrs or {}
         self.c_like = kind == "enum" and all(not v[2] for v in variants)
         if default and kind == "struct":
             assert all(t.default for _, t in fields), "default struct %s has non-default field" % name
@@ -277,6 +278,8 @@ class Def:
         lines = []
         for i, (vn, st, fs, isdef) in enumerate(self.variants):
             pre = "    #[default]\n" if (isdef and self.default) else ""
+            if vn in self.vattrs:
+                pre = "    %s\n" % self.vattrs[vn] + pre
             d = ""
             if self.discrs and self.discrs[i] is not None:
                 d = " = %d" % self.discrs[i]
@@ -422,6 +425,11 @@ def build(tier):
              default=True, vis="")
     ue_t32 = D("UETag32", "enum", False, tag="u32", variants=[("A", "tuple", [(None, U8), (None, str_u8)], False),
                                                                 ("B", "tuple", [(None, BOOL)], False)], default=False)
+    ue_at = D("UEAttr", "enum", False, variants=[("A", "unit", [], False), ("B", "tuple", [(None, U16), (None, vec_u8_u8)], False),
+                                                  ("C", "unit", [], True), ("D", "unit", [], False)], default=True,
+              vattrs={"A": "#[rustfmt::skip]", "D": "#[allow(dead_code)]"})
+    es_at = D("ESAttr", "enum", True, tag="u16", variants=[("A", "unit", [], False), ("B", "tuple", [(None, U32)], False), ("C", "unit", [], True)],
+              default=True, vattrs={"A": "#[rustfmt::skip]"})
     us_n3 = D("USNest3", "struct", False, fields=[("t", U8), ("e", ue_b.t)], default=False)
     flex_ue = flexvec(ue_a.t, U16)
     us_i = D("USi", "struct", False, fields=[("n", U16), ("items", flex_ue)], default=True)
